@@ -75,17 +75,20 @@ def run_check(pid: str, tier: str) -> int:
 
     unlisted = 0
     seen_known: set[str] = set()
+    replay_cache: dict = {}  # (round, case) -> signatures reproduced; many signatures may share one case
     for sig, v in by_sig.items():
         # determinism gate: the recorded case must fail identically twice, from scratch
         ok = True
         if hasattr(mod, "replay"):
-            for _ in range(2):
-                try:
-                    again = mod.replay(v.case)
-                except Exception:  # noqa: BLE001
-                    traceback.print_exc()
-                    again = []
-                if sig not in {a.signature for a in again}:
+            for rnd in range(2):
+                key = (rnd, json.dumps(v.case, sort_keys=True, default=str))
+                if key not in replay_cache:
+                    try:
+                        replay_cache[key] = {a.signature for a in mod.replay(v.case)}
+                    except Exception:  # noqa: BLE001
+                        traceback.print_exc()
+                        replay_cache[key] = set()
+                if sig not in replay_cache[key]:
                     ok = False
         if not ok:
             print(
